@@ -1,0 +1,14 @@
+//go:build verif
+
+package gkr
+
+import (
+	"github.com/consensys/gnark-crypto/ecc/bn254/fr"
+	gkrbn254 "github.com/consensys/gnark/internal/gkr/bn254"
+)
+
+// VerifRegisterNativeGateBN254 (build tag verif only) registers the native (prover-side) version of a
+// custom gate for BN254; the package registering it is internal and cannot be imported by a harness.
+func VerifRegisterNativeGateBN254(name string, f func(...fr.Element) fr.Element, nbIn int) error {
+	return gkrbn254.RegisterGate(gkrbn254.GateName(name), f, nbIn)
+}
